@@ -320,12 +320,12 @@ func (db *Database) master() ([]sqliteMaster, error) {
 		if s, ok := e[1].(string); !ok {
 			return false, ErrInvalidDef
 		} else {
-			m.name = strings.ToLower(s)
+			m.name = lower(s)
 		}
 		if s, ok := e[2].(string); !ok {
 			return false, ErrInvalidDef
 		} else {
-			m.tblName = strings.ToLower(s)
+			m.tblName = lower(s)
 		}
 		if n, ok := e[3].(int64); !ok {
 			return false, ErrInvalidDef
@@ -439,7 +439,7 @@ func (db *Database) Table(name string) (*Table, error) {
 	if err != nil {
 		return nil, err
 	}
-	n := strings.ToLower(name)
+	n := lower(name)
 	for _, o := range objects {
 		if o.typ == "table" && o.name == n {
 			return &Table{db: db, root: o.rootPage, sql: o.sql}, nil
@@ -455,7 +455,7 @@ func (db *Database) NonRowidTable(name string) (*Index, error) {
 	if err != nil {
 		return nil, err
 	}
-	n := strings.ToLower(name)
+	n := lower(name)
 	for _, o := range objects {
 		if o.typ == "table" && o.name == n {
 			return &Index{db: db, root: o.rootPage, sql: o.sql}, nil
@@ -475,7 +475,7 @@ func (db *Database) Index(name string) (*Index, error) {
 	if err != nil {
 		return nil, err
 	}
-	n := strings.ToLower(name)
+	n := lower(name)
 	for _, o := range objects {
 		if o.typ == "index" && o.name == n {
 			return &Index{db: db, root: o.rootPage, sql: o.sql}, nil
